@@ -165,7 +165,7 @@ def r22_3(ctx):
     """pool_monitor::lock / unlock"""
     for name in ("lock", "unlock"):
         for F in ctx.need("cds::sync::pool_monitor::" + name):
-            ps = PathSim(F, bound=1024).run()
+            ps = PathSim(F, bound=1024, watch_reads=("m_pLock",)).run()
             ctx.paths += len(ps)
             for p in ps:
                 if p.outcome != "return":
@@ -183,6 +183,19 @@ def r22_3(ctx):
                 # every access to m_pLock lies inside (w, rel)
                 acc = [i for i, e in enumerate(ev) if (e.kind == "store" and sv_field_path(e.obj)[-1:] == ["m_pLock"])]
                 reads = [i for i, e in enumerate(ev) if e.kind in ("call", "branch") and i != w and _mentions_field(e, "m_pLock")]
+                rd = [i for i, e in enumerate(ev) if e.kind == "read"]
+                if name == "lock":
+                    # before the spin bit and a reference are held, the pointer may be attached/detached by another thread
+                    early = [i for i in rd if i < w]
+                    ctx.check(not early, "R22.3", F, "lock: the node's lock pointer is read only after the spin bit (and a reference) is held",
+                              ev[early[0]].node if early else None,
+                              detail="a value read earlier can be stale: a second pool lock is attached to the node (two threads in the critical "
+                              "section) or a lock already returned to the pool is used. " + R, sig="plock-read-early")
+                else:
+                    # unlock: the caller holds a reference, so the pointer is stable until that reference is dropped
+                    late = [i for i in rd if i > rel[0]]
+                    ctx.check(not late, "R22.3", F, "unlock: the node's lock pointer is not read after the reference was dropped", ev[late[0]].node if late else None,
+                              detail=R, sig="plock-read-late")
                 inside = all(w < i < rel[0] for i in acc)
                 ctx.check(inside, "R22.3", F, "%s: the node's lock pointer is written only while the spin bit is held" % name,
                           ev[acc[0]].node if acc else None, detail=R, sig="plock-write-inside")
